@@ -82,12 +82,58 @@ def eval_case(item):
             os.chdir(old)
 
 
+def history_case(_=None):
+    """Two directory trees with the same layout, same file sizes and same mtimes (like the Nix store), visited one
+    after the other in ONE process with relatively spelled entry paths: the second visit must read the second tree."""
+    from nix_manipulator import parse_file
+
+    bad = []
+    with tempfile.TemporaryDirectory() as base:
+        base = os.path.realpath(base)
+        roots = {}
+        for tag in ("A", "B"):
+            root = os.path.join(base, tag)
+            for rel, content in layout(os.path.join(base, "X")).items():
+                content = content.replace(os.path.join(base, "X"), root).replace('"', f'"{tag}', 1) if False else content.replace(os.path.join(base, "X"), root)
+                content = content.replace('v = "', f'v = "{tag}')
+                p = os.path.join(root, rel)
+                os.makedirs(os.path.dirname(p), exist_ok=True)
+                with open(p, "w") as fh:
+                    fh.write(content)
+                os.utime(p, ns=(1_000_000_000, 1_000_000_000))
+            roots[tag] = root
+        old = os.getcwd()
+        try:
+            for tag in ("A", "B", "A"):
+                os.chdir(roots[tag])
+                for keys, expected in LOOKUPS:
+                    if isinstance(expected, type) or keys[0] == "abs":
+                        continue
+                    try:
+                        cur = parse_file("entry.nix")
+                        for k in keys:
+                            cur = cur[k]
+                        got = cur.rebuild().strip()
+                    except Exception as e:
+                        got = f"{type(e).__name__}"
+                    exp = expected[0] + tag + expected[1:]
+                    if got != exp:
+                        bad.append(f"history:{'.'.join(keys)}:in-tree-{tag}-got-{got}")
+        finally:
+            os.chdir(old)
+    return bad
+
+
 def run(tier, seed):
     t0 = time.time()
     items = list(itertools.product(["root", "sub", "unrelated", "deep"], ["absolute", "relative", "dotted"]))
     with mp.get_context("fork").Pool(12) as pool:
         res = pool.map(eval_case, items, chunksize=1)
+        hist = pool.apply(history_case)
     vio = []
+    for b in hist:
+        vio.append(dict(check="imports-history", signature=b, what=f"C17 {b}: a second tree of the same layout visited later in the same process", has_input=True,
+                        inputs={"history": True}, failing_input={"inputs": {"scenario": "two same-layout trees, chdir between, relative entry"}, "observed": b, "origin": "generated layout"}))
     for it, bad in zip(items, res):
         for b in bad:
             sig = f"{b}|cwd={it[0]}|entry={it[1]}"
@@ -103,6 +149,13 @@ def run(tier, seed):
 
 
 def replay(v):
+    if v["inputs"].get("history"):
+        bad = history_case()
+        print("history ->", bad)
+        if bad:
+            print("VIOLATION property=C17 replay=<given>")
+            return 1
+        return 0
     bad = eval_case((v["inputs"]["cwd"], v["inputs"]["spelling"]))
     print(v["inputs"], "->", bad)
     if bad:
